@@ -180,7 +180,7 @@ func init() {
 				return
 			}
 			s := t.text
-			r.Check(strings.Contains(s, "⟨$5.paramNames[i1]⟩ ALT[($1.Variadic()&&(i1==($1.Params().Len()-1)))]{ ... ⟨types.TypeString($1.Params().At(i1).Type().(*types.Slice).Elem(),$5.g.qualifyPkg)⟩ }{ ⟨types.TypeString($1.Params().At(i1).Type(),$5.g.qualifyPkg)⟩ }"),
+			r.Check(strings.Contains(s, "⟨$5.paramNames[i1]⟩ ALT[$1.Variadic()]{ ALT[(i1==($1.Params().Len()-1))]{ ... ⟨types.TypeString($1.Params().At(i1).Type().(*types.Slice).Elem(),$5.g.qualifyPkg)⟩ }{ ⟨types.TypeString($1.Params().At(i1).Type(),$5.g.qualifyPkg)⟩ } }{ ⟨types.TypeString($1.Params().At(i1).Type(),$5.g.qualifyPkg)⟩ }"),
 				"variadic-last-only", t.fi.Decl.Pos(), "`...Elem` is printed exactly for the last parameter of a variadic template")
 			r.Check(strings.Contains(s, "return ALT[(len($2)>0)]{ ⟨$5.localNames[(len($2)-1)]⟩ }{ ⟨$5.paramNames[$3.For(funcOutput($1)#0.out).Arg().Index]⟩ }"),
 				"returned-value", t.fi.Decl.Pos(), "returns the last step's local, or the argument that provides the result when there is no step")
@@ -469,7 +469,10 @@ func init() {
 				}
 				okCtx := true
 				for _, cx := range ctx {
-					if !(strings.HasPrefix(cx, "ALT-[") && (strings.Contains(cx, "funcOutput(") || strings.Contains(cx, "solve(") || strings.Contains(cx, "checkCalls("))) {
+					// the no-error side of `err != nil` / `len(errs) > 0`, in either orientation
+					errTest := strings.Contains(cx, "funcOutput(") || strings.Contains(cx, "solve(") || strings.Contains(cx, "checkCalls(")
+					noErrSide := (strings.HasPrefix(cx, "ALT-[") && !strings.Contains(cx, "==nil)]")) || (strings.HasPrefix(cx, "ALT+[") && strings.Contains(cx, "==nil)]"))
+					if !(errTest && noErrSide) {
 						okCtx = false
 					}
 				}
